@@ -143,9 +143,19 @@ func (w *World) Ev(format string, a ...interface{}) {
 
 func (w *World) EventLog() []byte { return w.ev.Bytes() }
 
+// EventLogHash hashes the event log without its comment lines ("# ..."): those carry free-text
+// error logs, which ABCI declares non-deterministic (e.g. which of two failing checks an ante
+// decorator reports first depends on map order) and which are not part of any result hash.
 func (w *World) EventLogHash() string {
-	h := sha256.Sum256(w.ev.Bytes())
-	return hex.EncodeToString(h[:])
+	h := sha256.New()
+	for _, line := range bytes.Split(w.ev.Bytes(), []byte{'\n'}) {
+		if len(line) > 0 && line[0] == '#' {
+			continue
+		}
+		h.Write(line)
+		h.Write([]byte{'\n'})
+	}
+	return hex.EncodeToString(h.Sum(nil))
 }
 
 func (w *World) Violate(prop, class, format string, a ...interface{}) {
@@ -157,7 +167,8 @@ func (w *World) Violate(prop, class, format string, a ...interface{}) {
 	}
 	v := Violation{Property: prop, Class: class, Detail: fmt.Sprintf(format, a...), Block: w.BlockIdx, Tx: -1}
 	w.Viol = append(w.Viol, v)
-	w.Ev("VIOLATION %s %s %s", prop, class, v.Detail)
+	w.Ev("VIOLATION %s %s", prop, class)
+	w.Ev("# detail %s", v.Detail)
 	if w.StopOnViolation && !w.KnownClasses[class] {
 		w.stopped = true
 	}
@@ -369,7 +380,10 @@ func (w *World) execBlock(b *BlockSpec) bool {
 				w.St.AnteFail++
 			}
 		}
-		w.Ev("TX %d/%d code=%d/%s gas=%d/%d ante=%v log=%s", height, ti, tx.Resp.Code, tx.Resp.Codespace, tx.Resp.GasWanted, tx.Resp.GasUsed, tx.AntePassed, trunc(tx.Resp.Log, 80))
+		w.Ev("TX %d/%d code=%d/%s gas=%d/%d ante=%v", height, ti, tx.Resp.Code, tx.Resp.Codespace, tx.Resp.GasWanted, tx.Resp.GasUsed, tx.AntePassed)
+		if tx.Resp.Code != 0 {
+			w.Ev("# log %s", trunc(tx.Resp.Log, 100))
+		}
 		w.M.afterTx(w, tx)
 		for _, m := range w.Mons {
 			m.AfterTx(w, tx)
@@ -523,7 +537,10 @@ func (w *World) doCheck(tx *TxCtx) {
 	if resp.Code == 0 {
 		w.St.CheckOK++
 	}
-	w.Ev("CHECK %d/%d code=%d/%s log=%s", w.BlockIdx, tx.Idx, resp.Code, resp.Codespace, trunc(resp.Log, 80))
+	w.Ev("CHECK %d/%d code=%d/%s", w.BlockIdx, tx.Idx, resp.Code, resp.Codespace)
+	if resp.Code != 0 {
+		w.Ev("# log %s", trunc(resp.Log, 100))
+	}
 	for _, m := range w.Mons {
 		m.AfterCheck(w, tx)
 	}
